@@ -263,6 +263,9 @@ class ebpps_sketch {
     template<typename O>
     void internal_merge(O&& other);
 
+    // lowers k_ to k (if smaller) and downsamples the current sample to the new bound
+    void reduce_k(uint32_t k);
+
     ebpps_sketch(uint32_t k, uint64_t n, double cumulative_wt, double wt_max, double rho,
                  ebpps_sample<T,A>&& sample, const A& allocator = A());
 
